@@ -687,19 +687,19 @@ Definition w_good : list item :=
               SFor 2 [SIf n_g [SBreak]; SMark 3 None]]].
 
 Lemma looplocal_refuted :
-  transl_ok w_looplocal = true /\ one_main_last w_looplocal = true /\ vars_persist w_looplocal = false /\
+  transl_ok w_looplocal = true /\ one_main_last w_looplocal = true /\ vars_ok w_looplocal = false /\
   obs (exec no_input 3 w_looplocal) = [EVal n_c0 1; EVal n_c0 1; EVal n_c0 1] /\
   py_exec 3 w_looplocal = [EVal n_c0 1; EVal n_c0 2; EVal n_c0 3].
 Proof. vm_compute. repeat split; reflexivity. Qed.
 
 Lemma postloop_refuted :
-  transl_ok w_postloop = true /\ vars_persist w_postloop = true /\ one_main_last w_postloop = false /\
+  transl_ok w_postloop = true /\ vars_ok w_postloop = true /\ one_main_last w_postloop = false /\
   obs (exec no_input 2 w_postloop) = [EMark 1; EMark 3; EMark 2; EMark 2] /\
   py_exec 2 w_postloop = [EMark 1; EMark 2; EMark 2].
 Proof. vm_compute. repeat split; reflexivity. Qed.
 
 Lemma twoloops_refuted :
-  transl_ok w_twoloops = true /\ vars_persist w_twoloops = true /\ one_main_last w_twoloops = false /\
+  transl_ok w_twoloops = true /\ vars_ok w_twoloops = true /\ one_main_last w_twoloops = false /\
   obs (exec no_input 2 w_twoloops) = [EMark 1; EMark 2; EMark 3; EMark 2; EMark 3] /\
   py_exec 2 w_twoloops = [EMark 1; EMark 2; EMark 2].
 Proof. vm_compute. repeat split; reflexivity. Qed.
@@ -711,7 +711,7 @@ Lemma good_nonvacuous :
 Proof. vm_compute. repeat split; reflexivity. Qed.
 
 Lemma looplocal_refuted_ex : exists its inp n,
-  transl_ok its = true /\ one_main_last its = true /\ vars_persist its = false /\
+  transl_ok its = true /\ one_main_last its = true /\ vars_ok its = false /\
   obs (exec inp n its) <> py_exec n its.
 Proof.
   exists w_looplocal, no_input, 3%nat. destruct looplocal_refuted as (H1 & H2 & H3 & H4 & H5).
@@ -719,7 +719,7 @@ Proof.
 Qed.
 
 Lemma postloop_refuted_ex : exists its inp n,
-  transl_ok its = true /\ vars_persist its = true /\ one_main_last its = false /\
+  transl_ok its = true /\ vars_ok its = true /\ one_main_last its = false /\
   obs (exec inp n its) <> py_exec n its.
 Proof.
   exists w_postloop, no_input, 2%nat. destruct postloop_refuted as (H1 & H2 & H3 & H4 & H5).
@@ -727,7 +727,7 @@ Proof.
 Qed.
 
 Lemma twoloops_refuted_ex : exists its inp n,
-  transl_ok its = true /\ vars_persist its = true /\ one_main_last its = false /\
+  transl_ok its = true /\ vars_ok its = true /\ one_main_last its = false /\
   obs (exec inp n its) <> py_exec n its.
 Proof.
   exists w_twoloops, no_input, 2%nat. destruct twoloops_refuted as (H1 & H2 & H3 & H4 & H5).
@@ -1749,3 +1749,358 @@ Lemma good_housekeeping :
   map (firstn 3) (snd (fst (exec_phases odd_input 2 w_good))) =
     [[EPoll 4; EHUse RSer true; EHand 9]; [EPoll 4; EUse (RPin 5) true; EMark 2]].
 Proof. vm_compute. split; reflexivity. Qed.
+
+(* ------------------------------------------------------------------ C05: source order, read off the trace *)
+Definition marks_of (t : list ev) : list Z := flat_map (fun e => match e with EMark i => [i] | _ => [] end) t.
+
+Lemma marks_app : forall a b, marks_of (a ++ b) = marks_of a ++ marks_of b.
+Proof. intros. unfold marks_of. apply flat_map_app. Qed.
+
+Lemma marks_nomark : forall t, (forall i, ~ In (EMark i) t) -> marks_of t = [].
+Proof.
+  induction t as [|e t IH]; intro H; [reflexivity|]. unfold marks_of in *. cbn [flat_map].
+  rewrite IH by (intros i Hi; apply (H i); right; exact Hi).
+  destruct e; try reflexivity. exfalso. apply (H id). left. reflexivity.
+Qed.
+
+Lemma marks_cu : forall t, forallb is_cfg_or_use t = true -> marks_of t = [].
+Proof.
+  intros t H. apply marks_nomark. intros i Hi. rewrite forallb_forall in H. specialize (H _ Hi). discriminate.
+Qed.
+
+Lemma marks_hk : forall t, forallb is_hk t = true -> marks_of t = [].
+Proof.
+  intros t H. apply marks_nomark. intros i Hi. rewrite forallb_forall in H. specialize (H _ Hi). discriminate.
+Qed.
+
+Lemma marks_flat_stmt : forall s m tab top ins d vs, flat_stmt s = true ->
+  marks_of (tr (run_stmt m tab top ins d s vs)) = marks_stmt s.
+Proof.
+  intros s m tab top ins d vs Hf. destruct s; try discriminate; unfold tr; cbn [run_stmt marks_stmt].
+  - cbn [fst snd]. rewrite marks_app, (marks_cu _ (use_cu _ (use_uses tab dev))). reflexivity.
+  - cbn [fst snd]. apply marks_cu, cu_inplace.
+  - destruct (eval e vs). reflexivity.
+  - destruct (vread x vs). cbn [fst snd]. rewrite marks_app, (marks_cu _ (use_cu _ (use_uses tab (Some dev)))). reflexivity.
+  - cbn [fst snd]. exact (marks_cu _ (use_cu _ (use_uses tab (Some lcd)))).
+  - reflexivity.
+Qed.
+
+Lemma marks_flat_ann : forall main ld, base main ld -> forall l m tab ins v,
+  forallb flat_stmt (map snd l) = true -> ann_ok main ld l = true ->
+  marks_of (tr (run_ann m tab ins l v)) = flat_map marks_stmt (map snd l).
+Proof.
+  intros main ld Hbase. induction l as [|[d s] r IH]; intros m tab ins v Hf Hok; [reflexivity|].
+  cbn [map snd forallb] in Hf. apply andb_true_iff in Hf as [Hf1 Hf2].
+  cbn [ann_ok forallb snd] in Hok. apply andb_true_iff in Hok as [Hb1 Hb2]. fold (ann_ok main ld r) in Hb2.
+  cbn [run_ann map snd flat_map].
+  pose proof (bg_stmt_nobreak s main ld m tab true ins d v Hb1 Hbase) as Hnb.
+  pose proof (marks_flat_stmt s m tab true ins d v Hf1) as Hm.
+  destruct (run_stmt m tab true ins d s v) as [[v1 t1] b]. cbn [snd] in Hnb. subst b.
+  specialize (IH m tab ins v1 Hf2 Hb2). destruct (run_ann m tab ins r v1) as [[v2 t2] b2].
+  unfold tr in *. cbn [fst snd] in *. rewrite marks_app, Hm, IH. reflexivity.
+Qed.
+
+(* straight-line prologue / body: the numbered statements appear exactly once per execution, in source order *)
+Lemma source_order : forall inp n its, transl_ok its = true ->
+  (forallb flat_stmt (fst (split its)) = true ->
+     marks_of (fst (fst (exec_phases inp n its))) = flat_map marks_stmt (fst (split its))) /\
+  (forallb flat_stmt (snd (split its)) = true ->
+     Forall (fun t => marks_of t = flat_map marks_stmt (snd (split its))) (snd (fst (exec_phases inp n its)))).
+Proof.
+  intros inp n its Hok. destruct (transl_ok_split its [] Hok) as [Hoks Hokl].
+  destruct (split_d_snd its []) as [Hs1 Hs2]. set (p := transl its).
+  assert (Hps : map snd (p_setup p) = fst (split its)) by exact Hs1.
+  assert (Hpl : map snd (p_loop p) = snd (split its)) by exact Hs2.
+  unfold exec_phases, run_setup. fold p. split; intro Hf.
+  - pose proof (marks_flat_ann false 0 base_setup (p_setup p) MC (p_tab p) true v0) as HM.
+    rewrite Hps in HM. specialize (HM Hf Hoks).
+    destruct (run_ann MC (p_tab p) true (p_setup p) v0) as [[v t] brk].
+    destruct (run_passes MC inp p n v _) as [v' tl]. unfold tr in HM. cbn [fst snd] in *.
+    rewrite marks_app, HM, (marks_cu (hoists p)); [reflexivity|].
+    unfold hoists. apply cu_app.
+    + induction (p_top_setup p) as [|d r IH]; [reflexivity|]. cbn [flat_map]. apply cu_app; [apply cu_hoist_setup|exact IH].
+    + induction (p_top_loop p) as [|d r IH]; [reflexivity|]. cbn [flat_map]. apply cu_app; [apply cu_hoist_loop|exact IH].
+  - destruct (run_ann MC (p_tab p) true (p_setup p) v0) as [[v t] brk].
+    generalize (fold_left (fun h d => setup_sample inp d h) (p_top_setup p) h0). revert v.
+    induction n as [|k IHk]; intros v h; [constructor|].
+    cbn [run_passes]. unfold run_pass.
+    pose proof (hk_poll_all inp p (p_polls p) h) as Hk.
+    destruct (poll_all inp p (p_polls p) h) as [h1 tp]. cbn [snd] in Hk.
+    pose proof (marks_flat_ann true 1 base_main (p_loop p) MC (p_tab p) false v) as HM.
+    rewrite Hpl in HM. specialize (HM Hf Hokl).
+    destruct (run_ann MC (p_tab p) false (p_loop p) v) as [[v1 tb] brk1]. unfold tr in HM. cbn [fst snd] in HM.
+    specialize (IHk (drop (p_locals p) v1) h1).
+    destruct (run_passes MC inp p k (drop (p_locals p) v1) h1) as [v2 ts]. cbn [fst snd] in *.
+    constructor; [|exact IHk].
+    rewrite !marks_app, (marks_hk _ Hk), (marks_hk _ (hk_ticks p)), HM. reflexivity.
+Qed.
+
+Lemma source_order_example :
+  marks_of (fst (fst (exec_phases no_input 2 w_postloop))) = [1; 3] /\
+  map marks_of (snd (fst (exec_phases no_input 2 w_twoloops))) = [[2; 3]; [2; 3]].
+Proof. vm_compute. split; reflexivity. Qed.
+
+(* ------------------------------------------------------------------ C05: loop() locals that are assigned before they are read *)
+Definition agree (K : name -> bool) (a b : vstate) : Prop :=
+  (forall y, K y = true -> vlookup y (v_vars a) = vlookup y (v_vars b)) /\ v_undef a = v_undef b.
+
+Lemma name_eqb_sym : forall a b, name_eqb a b = name_eqb b a.
+Proof.
+  induction a as [|x a IH]; intros [|y b]; try reflexivity. cbn [name_eqb]. rewrite (Z.eqb_sym x y), IH. reflexivity.
+Qed.
+
+Lemma vlookup_vset : forall l x v y,
+  vlookup y (vset x v l) = if name_eqb y x then Some v else vlookup y l.
+Proof.
+  induction l as [|[y' w] r IH]; intros x v y.
+  - cbn [vset vlookup]. reflexivity.
+  - cbn [vset]. destruct (name_eqb x y') eqn:E.
+    + apply name_eqb_eq in E. subst y'. cbn [vlookup]. destruct (name_eqb y x); reflexivity.
+    + cbn [vlookup]. rewrite IH. destruct (name_eqb y y') eqn:E1; [|reflexivity].
+      destruct (name_eqb y x) eqn:E2; [|reflexivity].
+      apply name_eqb_eq in E1. apply name_eqb_eq in E2. subst. rewrite name_eqb_refl in E. discriminate.
+Qed.
+
+Lemma agree_write : forall K a b x v, agree K a b -> agree K (vwrite x v a) (vwrite x v b).
+Proof.
+  intros K a b x v [H1 H2]. split; [|exact H2]. intros y Hy. unfold vwrite. cbn [v_vars].
+  rewrite !vlookup_vset. destruct (name_eqb y x); [reflexivity|apply H1; exact Hy].
+Qed.
+
+Lemma agree_write_ext : forall K K' a b x v, agree K a b ->
+  (forall y, K' y = true -> K y = true \/ name_eqb y x = true) -> agree K' (vwrite x v a) (vwrite x v b).
+Proof.
+  intros K K' a b x v [H1 H2] HK. split; [|exact H2]. intros y Hy. unfold vwrite. cbn [v_vars].
+  rewrite !vlookup_vset. destruct (name_eqb y x) eqn:E; [reflexivity|].
+  destruct (HK y Hy) as [H|H]; [apply H1; exact H|congruence].
+Qed.
+
+Lemma agree_read : forall K a b x, K x = true -> agree K a b ->
+  fst (vread x a) = fst (vread x b) /\ agree K (snd (vread x a)) (snd (vread x b)).
+Proof.
+  intros K a b x Hx [H1 H2]. unfold vread. rewrite (H1 x Hx).
+  destruct (vlookup x (v_vars b)); cbn [fst snd]; split; try reflexivity; split; cbn [v_vars v_undef]; auto.
+Qed.
+
+Lemma agree_eval : forall K a b e, forallb K (reads_rhs e) = true -> agree K a b ->
+  fst (eval e a) = fst (eval e b) /\ agree K (snd (eval e a)) (snd (eval e b)).
+Proof.
+  intros K a b [z|y z] Hr Ha; cbn [eval].
+  - split; [reflexivity|exact Ha].
+  - cbn [reads_rhs forallb] in Hr. apply andb_true_iff in Hr as [Hy _].
+    destruct (agree_read K a b y Hy Ha) as [E1 E2].
+    destruct (vread y a) as [va a']. destruct (vread y b) as [vb b']. cbn [fst snd] in *. subst vb. split; [reflexivity|exact E2].
+Qed.
+
+Definition sim3 (K : name -> bool) (ra rb : res3) : Prop :=
+  tr ra = tr rb /\ snd ra = snd rb /\ agree K (fst (fst ra)) (fst (fst rb)).
+
+Definition sim_ok (K : name -> bool) (s : stmt) : Prop :=
+  forall tab top ins d a b, forallb K (reads_stmt s) = true -> agree K a b ->
+  sim3 K (run_stmt MPy tab top ins d s a) (run_stmt MPy tab top ins d s b).
+
+Lemma forallb_flat_map_in : forall (K : name -> bool) (f : stmt -> list name) l s,
+  forallb K (flat_map f l) = true -> In s l -> forallb K (f s) = true.
+Proof.
+  intros K f l s H Hin. rewrite forallb_forall in *. intros y Hy. apply H. apply in_flat_map. exists s. split; assumption.
+Qed.
+
+Lemma sim_list : forall K l, Forall (sim_ok K) l ->
+  forall tab top ins d a b, forallb K (flat_map reads_stmt l) = true -> agree K a b ->
+  sim3 K (run_list MPy tab top ins d l a) (run_list MPy tab top ins d l b).
+Proof.
+  intros K l HF. induction HF as [|s r Hs _ IH]; intros tab top ins d a b Hr Ha.
+  - repeat split; try reflexivity; apply Ha.
+  - cbn [flat_map] in Hr. rewrite forallb_app in Hr. apply andb_true_iff in Hr as [Hr1 Hr2].
+    cbn [run_list]. destruct (Hs tab top ins d a b Hr1 Ha) as (E1 & E2 & E3).
+    destruct (run_stmt MPy tab top ins d s a) as [[a1 t1] ba]. destruct (run_stmt MPy tab top ins d s b) as [[b1 t1'] bb].
+    unfold tr in E1. cbn [fst snd] in *. subst t1' bb. destruct ba.
+    + repeat split; try reflexivity; apply E3.
+    + destruct (IH tab top ins (d ++ assigned_stmt s) a1 b1 Hr2 E3) as (F1 & F2 & F3).
+      destruct (run_list MPy tab top ins (d ++ assigned_stmt s) r a1) as [[a2 t2] ba2].
+      destruct (run_list MPy tab top ins (d ++ assigned_stmt s) r b1) as [[b2 t2'] bb2].
+      unfold tr in *. cbn [fst snd] in *. subst t2' bb2. repeat split; try reflexivity; apply F3.
+Qed.
+
+Lemma pre_reset_py : forall top ins d body vs, pre_reset MPy top ins d body vs = vs.
+Proof. reflexivity. Qed.
+
+Lemma sim_stmt : forall K s, sim_ok K s.
+Proof.
+  intros K s. induction s as [id dev|dd|x e|dv x|l| |x bd IHb|cn bd IHb] using stmt_ind';
+    intros tab top ins d a b Hr Ha.
+  - repeat split; try reflexivity; apply Ha.
+  - repeat split; try reflexivity; apply Ha.
+  - cbn [run_stmt]. cbn [reads_stmt] in Hr. destruct (agree_eval K a b e Hr Ha) as [E1 E2].
+    destruct (eval e a) as [va a']. destruct (eval e b) as [vb b']. cbn [fst snd] in *. subst vb.
+    repeat split; try reflexivity; apply (agree_write K a' b' x va E2).
+  - cbn [run_stmt]. cbn [reads_stmt forallb] in Hr. apply andb_true_iff in Hr as [Hx _].
+    destruct (agree_read K a b x Hx Ha) as [E1 E2].
+    destruct (vread x a) as [va a']. destruct (vread x b) as [vb b']. cbn [fst snd] in *. subst vb.
+    repeat split; try reflexivity; apply E2.
+  - repeat split; try reflexivity; apply Ha.
+  - repeat split; try reflexivity; apply Ha.
+  - rewrite !run_if, !pre_reset_py. cbn [reads_stmt forallb] in Hr. apply andb_true_iff in Hr as [Hx Hb].
+    destruct (agree_read K a b x Hx Ha) as [E1 E2].
+    destruct (vread x a) as [va a']. destruct (vread x b) as [vb b']. cbn [fst snd] in *. subst vb.
+    destruct (va =? 0); [repeat split; try reflexivity; apply E2|].
+    apply (sim_list K bd IHb); assumption.
+  - rewrite !run_for, !pre_reset_py. cbn [reads_stmt] in Hr.
+    revert a b Ha. induction cn as [|k IHk]; intros a b Ha.
+    + repeat split; try reflexivity; apply Ha.
+    + cbn [for_iter]. destruct (sim_list K bd IHb tab false ins d a b Hr Ha) as (E1 & E2 & E3).
+      destruct (run_list MPy tab false ins d bd a) as [[a1 t1] ba]. destruct (run_list MPy tab false ins d bd b) as [[b1 t1'] bb].
+      unfold tr in E1. cbn [fst snd] in *. subst t1' bb. destruct ba.
+      * repeat split; try reflexivity; apply E3.
+      * destruct (IHk a1 b1 E3) as (F1 & F2 & F3).
+        destruct (for_iter MPy tab ins d bd k a1) as [[a2 t2] ba2]. destruct (for_iter MPy tab ins d bd k b1) as [[b2 t2'] bb2].
+        unfold tr in *. cbn [fst snd] in *. subst t2' bb2. repeat split; try reflexivity; apply F3.
+Qed.
+
+Lemma known_var_cons : forall locals A x y, known_var locals (x :: A) y = true ->
+  known_var locals A y = true \/ name_eqb y x = true.
+Proof.
+  intros locals A x y H. unfold known_var in *. unfold mem_name in *. cbn [existsb] in H.
+  destruct (negb (existsb (name_eqb y) locals)); [left; reflexivity|]. cbn [orb] in *.
+  apply orb_true_iff in H as [H|H]; [right; exact H|left; exact H].
+Qed.
+
+(* one pass over the annotated loop list: the C++ store (locals dropped) against Python's *)
+Lemma sim_ann_da : forall locals tab l A a b,
+  da_list locals A (map snd l) = true -> agree (known_var locals A) a b ->
+  exists A', tr (run_ann MPy tab false l a) = tr (run_ann MPy tab false l b) /\
+             snd (run_ann MPy tab false l a) = snd (run_ann MPy tab false l b) /\
+             agree (known_var locals A') (fst (fst (run_ann MPy tab false l a))) (fst (fst (run_ann MPy tab false l b))).
+Proof.
+  intros locals tab. induction l as [|[d s] r IH]; intros A a b Hda Ha.
+  - exists A. repeat split; try reflexivity; apply Ha.
+  - cbn [map snd da_list] in Hda. apply andb_true_iff in Hda as [Hr Hda].
+    cbn [run_ann]. destruct (sim_stmt (known_var locals A) s tab true false d a b Hr Ha) as (E1 & E2 & E3).
+    assert (E3' : agree (known_var locals (top_assign s ++ A))
+                    (fst (fst (run_stmt MPy tab true false d s a))) (fst (fst (run_stmt MPy tab true false d s b)))).
+    { destruct s; try exact E3. cbn [top_assign app]. cbn [run_stmt] in *. cbn [reads_stmt] in Hr.
+      destruct (agree_eval (known_var locals A) a b e Hr Ha) as [F1 F2].
+      destruct (eval e a) as [va a']. destruct (eval e b) as [vb b']. cbn [fst snd] in *. subst vb.
+      apply (agree_write_ext (known_var locals A) _ a' b' x va F2). intros y Hy. apply known_var_cons. exact Hy. }
+    destruct (run_stmt MPy tab true false d s a) as [[a1 t1] ba]. destruct (run_stmt MPy tab true false d s b) as [[b1 t1'] bb].
+    unfold tr in E1. cbn [fst snd] in *. subst t1' bb. destruct ba.
+    + exists (top_assign s ++ A). repeat split; try reflexivity; apply E3'.
+    + destruct (IH (top_assign s ++ A) a1 b1 Hda E3') as (A' & F1 & F2 & F3).
+      destruct (run_ann MPy tab false r a1) as [[a2 t2] ba2]. destruct (run_ann MPy tab false r b1) as [[b2 t2'] bb2].
+      unfold tr in *. cbn [fst snd] in *. subst t2' bb2. exists A'. repeat split; try reflexivity; apply F3.
+Qed.
+
+Lemma vlookup_drop : forall L l y, mem_name y L = false ->
+  vlookup y (filter (fun kv : name * Z => negb (mem_name (fst kv) L)) l) = vlookup y l.
+Proof.
+  intros L l y Hy. induction l as [|[y' w] r IH]; [reflexivity|]. cbn [filter fst vlookup].
+  destruct (name_eqb y y') eqn:E.
+  - apply name_eqb_eq in E. subst y'. rewrite Hy. cbn [negb vlookup]. rewrite name_eqb_refl. reflexivity.
+  - destruct (negb (mem_name y' L)); [cbn [vlookup]; rewrite E; exact IH|exact IH].
+Qed.
+
+Lemma agree_drop : forall locals A a b, agree (known_var locals A) a b -> agree (known_var locals []) (drop locals a) b.
+Proof.
+  intros locals A a b [H1 H2]. split; [|exact H2]. intros y Hy. unfold known_var in Hy. cbn [mem_name existsb] in Hy.
+  rewrite orb_false_r in Hy. apply negb_true_iff in Hy. unfold drop. cbn [v_vars].
+  rewrite (vlookup_drop locals _ y Hy). apply H1. unfold known_var. rewrite Hy. reflexivity.
+Qed.
+
+Lemma passes_refine_da : forall inp p,
+  no_intro_ann false (p_loop p) = true -> da_list (p_locals p) [] (map snd (p_loop p)) = true ->
+  forall n vc vp h, agree (known_var (p_locals p) []) vc vp ->
+  agree (known_var (p_locals p) []) (fst (run_passes MC inp p n vc h)) (fst (ann_passes (p_tab p) (p_loop p) n vp)) /\
+  map obs (snd (run_passes MC inp p n vc h)) = map obs (snd (ann_passes (p_tab p) (p_loop p) n vp)).
+Proof.
+  intros inp p Hni Hda. induction n as [|n IH]; intros vc vp h Ha; [split; [exact Ha|reflexivity]|].
+  cbn [run_passes ann_passes]. unfold run_pass.
+  pose proof (hk_poll_all inp p (p_polls p) h) as Hp.
+  destruct (poll_all inp p (p_polls p) h) as [h1 tp]. cbn [snd] in Hp.
+  rewrite (mode_indep_ann (p_loop p) (p_tab p) false vc Hni).
+  destruct (sim_ann_da (p_locals p) (p_tab p) (p_loop p) [] vc vp Hda Ha) as (A' & E1 & E2 & E3).
+  destruct (run_ann MPy (p_tab p) false (p_loop p) vc) as [[vc1 tb] brk].
+  destruct (run_ann MPy (p_tab p) false (p_loop p) vp) as [[vp1 tb'] brk'].
+  unfold tr in E1. cbn [fst snd] in *. subst tb' brk'.
+  specialize (IH (drop (p_locals p) vc1) vp1 h1 (agree_drop _ _ _ _ E3)).
+  destruct (run_passes MC inp p n (drop (p_locals p) vc1) h1) as [v2 ts].
+  destruct (ann_passes (p_tab p) (p_loop p) n vp1) as [v2' ts'].
+  cbn [fst snd map] in *. destruct IH as [IH1 IH2]. split; [exact IH1|]. f_equal; [|exact IH2].
+  rewrite !obs_app, (obs_nobs tp (hk_nobs tp Hp)), (obs_nobs _ (hk_nobs _ (hk_ticks p))). reflexivity.
+Qed.
+
+Lemma agree_refl : forall K v, agree K v v.
+Proof. intros K v. split; reflexivity. Qed.
+
+Lemma vars_ok_parts : forall its, vars_ok its = true ->
+  no_intro_ann true (p_setup (transl its)) = true /\ no_intro_ann false (p_loop (transl its)) = true /\
+  da_list (p_locals (transl its)) [] (map snd (p_loop (transl its))) = true.
+Proof.
+  intros its H. unfold vars_ok in H. apply andb_true_iff in H as [H H3]. apply andb_true_iff in H as [H1 H2].
+  repeat split; assumption.
+Qed.
+
+Lemma once_then_repeat_da : forall inp n its,
+  transl_ok its = true -> vars_ok its = true -> one_main_last its = true ->
+  forall ts tl cu ps pl pu,
+  exec_phases inp n its = (ts, tl, cu) -> py_phases n its = (ps, pl, pu) ->
+  obs ts = obs ps /\ concat (map obs tl) = concat (map obs pl) /\ cu = pu /\
+  (no_main its = false -> map obs tl = map obs pl).
+Proof.
+  intros inp n its Hok Hvp Hml ts tl cu ps pl pu Hc Hp.
+  destruct (vars_ok_parts its Hvp) as (Hns & Hnl & Hda).
+  unfold exec_phases, run_setup in Hc. unfold py_phases in Hp.
+  set (p := transl its) in *. set (tab := flat_map decls_stmt (all_stmts its)) in *.
+  assert (Htab : p_tab p = tab) by reflexivity.
+  assert (Hset : p_setup p = fst (split_d [] its)) by reflexivity.
+  assert (Hloop : p_loop p = snd (split_d [] its)) by reflexivity.
+  destruct (py_shape its tab [] n v0 Hml Hok) as (v1 & t1 & Hr & Hcase).
+  rewrite Htab, (mode_indep_ann (p_setup p) tab true v0 Hns), Hset, Hr in Hc.
+  destruct (passes_refine_da inp p Hnl Hda n v1 v1
+              (fold_left (fun h d => setup_sample inp d h) (p_top_setup p) h0) (agree_refl _ v1)) as [Hv Ht].
+  destruct (run_passes MC inp p n v1 _) as [v' tl'] eqn:Erp. inversion Hc; subst ts tl cu. clear Hc.
+  cbn [fst snd] in Hv, Ht. rewrite Htab, Hloop in Hv, Ht.
+  rewrite obs_app, (obs_nobs _ (nobs_hoists p)). cbn [app].
+  destruct Hcase as [(Hnm & Hb & Hpy)|(Hnm & d' & body & Hb & Hpy)].
+  - rewrite Hpy in Hp. inversion Hp; subst ps pl pu. clear Hp. rewrite Hb in Hv, Ht.
+    destruct (ann_passes_nil tab n v1) as [Hv1 Hc1]. rewrite Ht, Hc1. rewrite Hv1 in Hv. destruct Hv as [_ Hu].
+    repeat split; try reflexivity; try exact Hu. rewrite Hnm. discriminate.
+  - rewrite Hpy in Hp. rewrite Hb, ann_passes_loop in Hv, Ht.
+    destruct (py_loop tab d' body n v1) as [v2 tl2]. inversion Hp; subst ps pl pu. clear Hp.
+    cbn [fst snd] in Hv, Ht. rewrite Ht. destruct Hv as [_ Hu]. repeat split; try reflexivity; exact Hu.
+Qed.
+
+Lemma da_no_locals : forall A l, da_list [] A l = true.
+Proof.
+  intros A l. revert A. induction l as [|s r IH]; intro A; [reflexivity|]. cbn [da_list]. rewrite IH, andb_true_r.
+  apply forallb_forall. intros y _. reflexivity.
+Qed.
+
+Lemma vars_persist_ok : forall its, vars_persist its = true -> vars_ok its = true.
+Proof.
+  intros its H. destruct (vars_persist_parts its H) as (H1 & H2 & H3). unfold vars_ok.
+  rewrite H2, H3, H1, da_no_locals. reflexivity.
+Qed.
+
+Lemma once_then_repeat_trace_da : forall inp n its,
+  transl_ok its = true -> vars_ok its = true -> one_main_last its = true ->
+  obs (exec inp n its) = py_exec n its.
+Proof.
+  intros inp n its Hok Hvp Hml. unfold exec, py_exec.
+  destruct (exec_phases inp n its) as [[ts tl] cu] eqn:Ec. destruct (py_phases n its) as [[ps pl] pu] eqn:Ep.
+  destruct (once_then_repeat_da inp n its Hok Hvp Hml _ _ _ _ _ _ Ec Ep) as (H1 & H2 & _ & _).
+  rewrite obs_app, obs_concat, H1, H2. reflexivity.
+Qed.
+
+(* mon = SerialMonitor(9600); g = 0
+   while True:
+       t0 = g + 1; g = t0 + 1; mon.write(t0)         t0 is a local of loop(), assigned before it is read *)
+Definition n_t0 : name := [116; 48].
+Definition w_local_ok : list item :=
+  [IStmt (SDecl d_mon); IStmt (SSet n_g (RConst 0));
+   IMainLoop [SSet n_t0 (RAdd n_g 1); SSet n_g (RAdd n_t0 1); SShow n_mon n_t0]].
+
+Lemma local_ok_example :
+  transl_ok w_local_ok = true /\ vars_ok w_local_ok = true /\ vars_persist w_local_ok = false /\
+  one_main_last w_local_ok = true /\ locals_of w_local_ok = [n_t0] /\
+  py_exec 3 w_local_ok = [EVal n_t0 1; EVal n_t0 3; EVal n_t0 5] /\ vars_ok w_looplocal = false.
+Proof. vm_compute. repeat split; reflexivity. Qed.
